@@ -76,9 +76,18 @@ pub enum Dev {
     /// two deviations at once: approved and delivered under the (trusted) origin chain instead of the hub chain, and
     /// the payload is 0 the bare inner message, 1 a SendToHub wrapper, 2 a well-formed ReceiveFromHub wrapper
     FromTrustedChainDirectly(u8),
+    /// the conforming message inside two wrappers, each well-formed: k % 4 = 0 ReceiveFromHub(trusted origin) around
+    /// ReceiveFromHub(trusted origin), 1 ReceiveFromHub(trusted origin) around ReceiveFromHub(a never-trusted origin),
+    /// 2 ReceiveFromHub(trusted origin) around SendToHub, 3 three ReceiveFromHub layers - a wrapper holds a transfer or a
+    /// deployment, nothing else
+    WrappedTwice(u8),
 }
 
-const DEVS: [Dev; 30] = [
+const DEVS: [Dev; 34] = [
+    Dev::WrappedTwice(0),
+    Dev::WrappedTwice(1),
+    Dev::WrappedTwice(2),
+    Dev::WrappedTwice(3),
     Dev::FromTrustedChainDirectly(0),
     Dev::FromTrustedChainDirectly(1),
     Dev::FromTrustedChainDirectly(2),
@@ -380,6 +389,17 @@ impl Property for C04 {
             return Ok(());
         }
         let mut payload = match dev {
+            Dev::WrappedTwice(k) => {
+                let o = origin_name.as_bytes().to_vec();
+                let conforming = AHub::Receive { chain: o.clone(), inner: inner_bytes.clone() }.encode();
+                let mid = match k % 4 {
+                    1 => AHub::Receive { chain: b"never-trusted-chain".to_vec(), inner: inner_bytes.clone() }.encode(),
+                    2 => AHub::Send { chain: o.clone(), inner: inner_bytes.clone() }.encode(),
+                    3 => AHub::Receive { chain: o.clone(), inner: conforming.clone() }.encode(),
+                    _ => conforming.clone(),
+                };
+                AHub::Receive { chain: o, inner: mid }.encode()
+            }
             Dev::OuterSendToHub | Dev::FromTrustedChainDirectly(1) => AHub::Send { chain: origin_name.as_bytes().to_vec(), inner: inner_bytes.clone() }.encode(),
             Dev::RawInner | Dev::FromTrustedChainDirectly(0) => inner_bytes.clone(),
             _ => AHub::Receive { chain: origin_name.as_bytes().to_vec(), inner: inner_bytes.clone() }.encode(),
